@@ -274,6 +274,7 @@ def c28(ck, F, tier):
     guarded(ck, rs.sel_repair, F)
     guarded(ck, rs.sel_sheet, F)
     guarded(ck, rs.sel_cell, F)
+    guarded(ck, rs.range_anchor, F)
     guarded(ck, rs.clamp_post, F)
 
 
@@ -307,6 +308,16 @@ def c21(ck, F, tier):
     guarded(ck, re_.date_const, F)
     ck.rule("DATE-TOTAL", "date_to_serial_number rejects nothing inside the supported calendar range", floor=3)
     guarded(ck, re_.date_total, F)
+    # the pure calendar helpers behind DATE / WEEKDAY / DAYS360 / YEARFRAC never wrap or divide by zero: with chrono's
+    # accessor ranges (number_from_monday in 1..=7, num_days_from_sunday in 0..=6 ...) the zone engine discharges every
+    # unsigned subtraction; a weekday numbering built from the wrong accessor underflows for one day of the week
+    import rules_panic as pn
+    ck.rule("PANIC", "calendar helpers: no unsigned underflow, division by zero or failing unwrap", floor=8)
+    guarded(ck, pn.panic_rule, F, "PANIC",
+            ["functions::date_and_time::weekday_number", "functions::date_and_time::excel_serial_to_ymd", "functions::date_and_time::days360_us",
+             "functions::date_and_time::days360_eu", "functions::date_and_time::days360_serial", "functions::date_and_time::is_leap_year",
+             "functions::date_and_time::last_day_of_feb", "functions::date_and_time::is_feb29_between_consecutive_years",
+             "formatter::dates::from_excel_date", "formatter::dates::date_to_serial_number"], [], {}, skip_dirs=())
 
 
 def c34(ck, F, tier):
